@@ -40,7 +40,7 @@ def shape_key(log):
             out.append(("herald", st[1], st[2], st[3]))
         elif st[0] == "plus":
             out.append(("plus", shape_key(st[1]), shape_key(st[2])))
-        elif st[0] in ("circuit", "gate", "plus_self"):
+        elif st[0] in ("circuit", "gate", "plus_self", "add_same_child_again"):
             out.append(tuple(st))
         elif st[0] == "bs":
             out.append(("bs", st[1], st[2], st[4]))
@@ -153,7 +153,7 @@ def run(ctx):
         cls.hit = False
         b = Builder(rng, lw, loss_p=float(rng.choice([0.0, 0.0, 0.2])), on_add=cls,
                     max_herald_photons=int(rng.choice([1, 2])))
-        n = int(rng.integers(2, 8))
+        n = int(rng.integers(2, 8)) if rng.random() < 0.9 else int(rng.integers(8, 12))
         depth = int(rng.choice([1, 1, 2, 2, 3]))
         log: list = []
         try:
